@@ -162,21 +162,46 @@ static int rv_wordend(const struct rvflat *f, int j, int big)
 	return rv_k(f, j, big) != 0 && (j + 1 >= f->n || rv_k(f, j + 1, big) != rv_k(f, j, big));
 }
 
+/* A line holding only blanks counts as a stop the way an empty line does (POSIX: "blank lines" are words).
+ * Convention of the editor, expressed as predicates: going forward from p the stop is the newline j of such
+ * a line, provided the newline that starts the line lies at or after p (the line is entered from outside,
+ * or p is an empty line's newline); going backward the stop is the first blank s of the line, provided the
+ * whole line lies before p. */
+static int rv_blankstop_fwd(const struct rvflat *f, int p, int j)
+{
+	int i = j - 1;
+	if (f->c[j] != '\n')
+		return 0;
+	while (i >= 0 && (f->c[i] == ' ' || f->c[i] == '\t'))
+		i--;
+	return i >= 0 && i < j - 1 && f->c[i] == '\n' && i >= p;
+}
+
+static int rv_blankstop_bwd(const struct rvflat *f, int p, int s)
+{
+	int i = s;
+	if (s == 0 || f->c[s - 1] != '\n' || (f->c[s] != ' ' && f->c[s] != '\t'))
+		return 0;
+	while (i < f->n && (f->c[i] == ' ' || f->c[i] == '\t'))
+		i++;
+	return i < f->n && f->c[i] == '\n' && i <= p - 1;
+}
+
 /* one step of w / b / e on the flat position; returns the new position, or -1 when there is no further stop */
 static int rv_wordstep(const struct rvflat *f, int p, int cmd, int big)
 {
 	int j;
 	if (cmd == 'w') {
 		for (j = p + 1; j < f->n; j++)
-			if (rv_wordstart(f, j, big))
+			if (rv_wordstart(f, j, big) || rv_blankstop_fwd(f, p, j))
 				return j;
 	} else if (cmd == 'e') {
 		for (j = p + 1; j < f->n; j++)
-			if (rv_wordend(f, j, big))
+			if (rv_wordend(f, j, big) || rv_blankstop_fwd(f, p, j))
 				return j;
 	} else {
 		for (j = p - 1; j >= 0; j--)
-			if (rv_wordstart(f, j, big))
+			if (rv_wordstart(f, j, big) || rv_blankstop_bwd(f, p, j))
 				return j;
 	}
 	return -1;
